@@ -163,10 +163,11 @@ func c07Cuts(r *RNG, buf []byte, maxAll int, nsample int) ([]int, bool) {
 			set[i] = true
 		}
 	}
-	// section boundaries from the headers
+	// section boundaries from the headers: every cut inside each header, the first
+	// bytes of each body, the last bytes of each body
 	off := 0
 	for off+32 <= n {
-		for i := off - 2; i <= off+34; i++ {
+		for i := off - 4; i <= off+36; i++ {
 			add(i)
 		}
 		bs := int(binary.LittleEndian.Uint64(buf[off+24 : off+32]))
@@ -174,12 +175,8 @@ func c07Cuts(r *RNG, buf []byte, maxAll int, nsample int) ([]int, bool) {
 			break
 		}
 		off += 32 + bs
-		for i := off - 40; i <= off; i++ {
-			add(i)
-		}
 	}
-	for i := 0; i < 64; i++ {
-		add(i)
+	for i := 0; i < 8; i++ {
 		add(n - 1 - i)
 	}
 	for i := 0; i < nsample; i++ {
@@ -374,7 +371,7 @@ func c07FixtureStreams(c *Ctx) []*c07Stream {
 func init() {
 	register("C07", func(c *Ctx) {
 		c.Or.Rule = "streams: current-format Marshal() output of generated tries (all 16 option combos, 5 encoders, 8 key-set kinds, empty trie) and the archived fixtures in trie/testdata (three-section layouts 0.5.0-0.5.9, 0.5.10 layouts); " +
-			"an evaluation = one Unmarshal of one strict prefix (cut point) or of one stream with a rewritten 16-byte version field on an instance that held the full stream before; all cuts for streams up to the size limit, else all cuts within 34 bytes of every section boundary + both ends + a random sample; " +
+			"an evaluation = one Unmarshal of one strict prefix (cut point) or of one stream with a rewritten 16-byte version field on an instance that held the full stream before; all cuts for streams up to the size limit, else every cut from 4 bytes before to 36 bytes after the start of each section, the last 8 bytes and a random sample; " +
 			"non-trivial = the instance held at least 2 keys before the rejected load; distinct = distinct (stream, cut | version) pair"
 		w := c.Impl()
 		cw := c.Cases()
@@ -389,10 +386,10 @@ func init() {
 		fmt.Fprintf(cw, "K consts\nE\n")
 		fmt.Fprintf(w, "C consts\nspecs-in-fragment true\nversion %s\ncompatible %s\n", hxs(c07RepoVersion(c)), c07RepoCompat(c))
 
-		streams := c07CurrentStreams(c, c.N(14, 300))
+		streams := c07CurrentStreams(c, c.N(40, 300))
 		streams = append(streams, c07FixtureStreams(c)...)
-		maxAll := c.N(700, 6000)
-		nsample := c.N(40, 400)
+		maxAll := c.N(1200, 6000)
+		nsample := c.N(40, 60)
 		reported := map[string]bool{}
 
 		for _, s := range streams {
